@@ -7,6 +7,7 @@ from hypothesis import strategies as st
 from pv import env, gens
 
 ID = "C18"
+UNDOC_IS_VIOLATION = True   # "It raises ValueError when the slice is empty or when a needed variable has no value": no other exception type
 LEVEL = "exploration"
 N = {"quick": 1800, "thorough": 6000}
 RULE = ("cases = (constraint list over 2-4 variables with small-integer coefficients, two plot variables, integer values for the "
@@ -67,6 +68,13 @@ def _case(draw):
         need = [o for o in others if any(o in t[0] for t in terms)]
         if need:
             vals.pop(need[0])
+            if draw(st.booleans()):
+                # ... while one of the two plot variables does not occur in any constraint
+                ax = draw(st.sampled_from(["x", "y"]))
+                terms = [[{k: v for k, v in t[0].items() if k != ax}, t[1]] for t in terms]
+                terms = [t for t in terms if t[0]]
+                if not any(need[0] in t[0] for t in terms):
+                    terms.append([{need[0]: 1.0, ("y" if ax == "x" else "x"): 1.0}, 3.0])
         else:
             shape = "polygon"
     else:
